@@ -109,6 +109,7 @@ def campaign(ctx: Any, pid: str, runs: int, seed: int) -> None:
         cmd = [
             sys.executable, "-m", "vf.fuzz.target", pid, out, corpus,
             f"-runs={runs}", f"-seed={seed % (2**31 - 1) or 1}", "-max_len=400", "-timeout=120", "-rss_limit_mb=2500", "-verbosity=0", "-print_final_stats=1",
+            f"-artifact_prefix={work}/",  # slow-unit-*/crash-* files stay in the scratch directory, not in /verif
         ]
         def _uncap() -> None:  # libFuzzer reserves address space freely; its own -rss_limit_mb bounds real memory
             import resource
